@@ -50,6 +50,9 @@ var Heartbeat atomic.Int64
 // YieldBudget: more yield points than this inside one driver step means a busy loop.
 const YieldBudget = 200000
 
+// MaxParksPerRun bounds how many stalls one run injects (a wildcard directive matches many sites).
+const MaxParksPerRun = 24
+
 type Kernel struct {
 	T0   time.Time
 	Plan *Plan
@@ -119,7 +122,12 @@ func (k *Kernel) Logf(format string, args ...any) {
 	k.mu.Unlock()
 }
 
+var traceKernel = os.Getenv("VERIF_TRACE") != ""
+
 func (k *Kernel) logLocked(now int64, s string) {
+	if traceKernel {
+		fmt.Fprintf(os.Stderr, "KLOG %d %s\n", now, s)
+	}
 	if now != k.curT {
 		k.flushLocked()
 		k.curT = now
@@ -201,6 +209,9 @@ func (k *Kernel) Yield(class, ident string) {
 	k.visits[key] = n
 	var park int64 = -1
 	for i := range k.Plan.Stalls {
+		if len(k.stallIvls) >= MaxParksPerRun {
+			break
+		}
 		st := &k.Plan.Stalls[i]
 		if matchStr(st.M.Class, class) && matchStr(st.M.Args, ident) && (st.M.Nth == 0 || st.M.Nth == n) {
 			park = st.ParkNS
